@@ -91,7 +91,8 @@ pub fn sanitize(s: &str) -> String {
             continue;
         }
         // literal exponent: digit [eE] [+-]? digits{4,} -> keep three digits
-        if (c == 'e' || c == 'E') && i > 0 && (cs[i - 1].is_ascii_digit() || cs[i - 1] == '.') {
+        // (a literal may lack its mantissa digits altogether: `+e5`, `-.e5` are NUMBER tokens for the lexer)
+        if (c == 'e' || c == 'E') && i > 0 && (cs[i - 1].is_ascii_digit() || matches!(cs[i - 1], '.' | '+' | '-')) {
             let mut j = i + 1;
             if j < cs.len() && (cs[j] == '-' || cs[j] == '+') {
                 j += 1;
